@@ -1,6 +1,7 @@
 package main
 
 import (
+	"bytes"
 	"context"
 	"errors"
 	"fmt"
@@ -267,7 +268,25 @@ func c13Case(c *Ctx, r *Rng, h hsCase) {
 	w2, _, _, _ := o.conn.snapshot()
 	run := insertRun{wire: w2[len(written):]}
 	if negotiated < 54429 {
-		// settings are serialized in a binary form the model does not describe below 54429
+		// settings are serialized in a binary form the model does not describe below 54429 (the library sends none): the
+		// packet is checked by the harness itself — code, query id, [client info], the empty name that ends the settings,
+		// stage, compression, body, and then the blank Data packet, with nothing after it
+		wire := run.wire
+		head := putStr([]byte{1}, q.id)
+		tail := putStr([]byte{0, 2, 0}, q.body)
+		tail = append(tail, 2)
+		if negotiated >= 50264 {
+			tail = append(tail, 0)
+		}
+		tail = append(tail, blankBlock(negotiated)...)
+		switch {
+		case !bytes.HasPrefix(wire, head):
+			viol("query-encoded-at-wrong-revision", fmt.Sprintf("negotiated revision %d: the stream does not start with the Query code and the query id", negotiated))
+		case !bytes.HasSuffix(wire, tail):
+			viol("query-encoded-at-wrong-revision", fmt.Sprintf("negotiated revision %d: the stream does not end with <end of settings> stage compression body + blank Data packet: ...%s, want ...%s", negotiated, hx(wire[max(0, len(wire)-len(tail)-4):]), hx(tail)))
+		case negotiated < 54420 && len(wire) != len(head)+len(tail):
+			viol("query-encoded-at-wrong-revision", fmt.Sprintf("negotiated revision %d (no client info): %d bytes between the query id and the end of settings", negotiated, len(wire)-len(head)-len(tail)))
+		}
 	} else if msg := verifyClientStream(c, sc, q, run, simOpts{}, false); msg != "" {
 		viol("query-encoded-at-wrong-revision", fmt.Sprintf("negotiated revision %d: %s", negotiated, msg))
 	}
